@@ -22,7 +22,7 @@ def make_plan(ths, tier, rnd):
     for theory, (sig, stages) in modelcheck.select(ths, PROP, tier):
         api = histories.api_of(sig, modelcheck.module_path(theory))
         n = SIZE.get(theory, 2)
-        for _ in range(150 if thorough else 30):
+        for _ in range(60 if thorough else 30):
             plan.add(theory, histories.random_history(sig, api, rnd, rnd.randint(6, 18), n, p_close=0.08, p_until=0.04))
         plan.maxels[theory] = 7
     return plan
